@@ -58,17 +58,17 @@ Pick == /\ c.k = "part"
         /\ \E x \in CasesWithFirst(c.i1) :
               /\ c' = x
               /\ m' = DsInit(TxSer(x.t) \o x.u)
-Do(pc, Step(_)) == c.k = "case" /\ m.pc = pc /\ m' = Step(m) /\ UNCHANGED c
-PVersion         == Do("Version", StepVersion)
-PInCountOrMarker == Do("InCountOrMarker", StepInCountOrMarker)
-PFlag            == Do("Flag", StepFlag)
-PInCount         == Do("InCount", StepInCount)
-PInput           == Do("Input", StepInput)
-POutCount        == Do("OutCount", StepOutCount)
-POutput          == Do("Output", StepOutput)
-PWitCount        == Do("WitCount", StepWitCount)
-PWitItem         == Do("WitItem", StepWitItem)
-PLocktime        == Do("Locktime", StepLocktime)
+Ready(pc) == c.k = "case" /\ m.pc = pc
+PVersion == Ready("Version") /\ m' = StepVersion(m) /\ UNCHANGED c
+PInCountOrMarker == Ready("InCountOrMarker") /\ m' = StepInCountOrMarker(m) /\ UNCHANGED c
+PFlag == Ready("Flag") /\ m' = StepFlag(m) /\ UNCHANGED c
+PInCount == Ready("InCount") /\ m' = StepInCount(m) /\ UNCHANGED c
+PInput == Ready("Input") /\ m' = StepInput(m) /\ UNCHANGED c
+POutCount == Ready("OutCount") /\ m' = StepOutCount(m) /\ UNCHANGED c
+POutput == Ready("Output") /\ m' = StepOutput(m) /\ UNCHANGED c
+PWitCount == Ready("WitCount") /\ m' = StepWitCount(m) /\ UNCHANGED c
+PWitItem == Ready("WitItem") /\ m' = StepWitItem(m) /\ UNCHANGED c
+PLocktime == Ready("Locktime") /\ m' = StepLocktime(m) /\ UNCHANGED c
 Next == \/ Pick \/ PVersion \/ PInCountOrMarker \/ PFlag \/ PInCount \/ PInput \/ POutCount \/ POutput
         \/ PWitCount \/ PWitItem \/ PLocktime
 
